@@ -6,7 +6,8 @@ CLAIMS = {
                 'the acceptance region of sequential validate, slice bounds of get/set, the sparse range/subset test, '
                 'the zero-mode offset (an explicit zero_mode argument, False included, is honoured) and table selection of the slave context, routing / id interval of the server context, and storage isolation (default blocks fresh per table and per context, constructors copy their initial values). These are necessary conditions of the property that hold or fail for all inputs at once; '
                 'operation histories are not decided.'
-                ' No sharing idiom (dict.fromkeys over a mutable value, [x]*n) builds the default tables; blocks and contexts own their state per instance.',
+                ' No sharing idiom (dict.fromkeys over a mutable value, [x]*n) builds the default tables; blocks and contexts own their state per instance.'
+                ' zero_mode defaults to the current Defaults.ZeroMode.',
         'note': 'Python slice/dict/set semantics trusted; only the in-memory blocks and contexts named in the anchors are analysed.',
         'technique': 'path enumeration + affine constraint normal forms (static)',
     },
@@ -16,7 +17,8 @@ CLAIMS = {
                 'address, FC23 writes before it reads, responses echo the spec fields, the FC22 stored value has the spec truth '
                 'table, and validate/get/set of the slave context share one address transform, and the four tables of a context are distinct objects by default, and block getValues/setValues touch exactly the addressed cells. Necessary structural conditions; '
                 'request histories and "latest write wins" are not decided.'
-                ' Echo fields of write responses keep a 0 argument; contexts and blocks own their tables per instance.',
+                ' Echo fields of write responses keep a 0 argument; contexts and blocks own their tables per instance.'
+                ' The accessors of the slave context write no attribute of the context; zero_mode defaults to the current Defaults.ZeroMode (read at construction).',
         'note': 'In-memory ModbusSlaveContext only; struct and Python list semantics trusted; C18 decides block arithmetic.',
         'technique': 'path enumeration with value propagation + bitwise truth table + sibling comparison (static)',
     },
@@ -28,7 +30,8 @@ CLAIMS = {
                 ' The server decoder owns its tables (a function registered on another server is still answered with 01).'
                 " doException() builds the exception answer from the request's own function code and ids; the RTU length oracle sizes every request up to the 256-byte ADU limit (shared with C03)."
                 ' A normal answer is given only on paths that passed validate() for the addressed range.'
-                ' IllegalFunctionRequest is built from the received function code; reset() of a block does not move the window validate() tests.',
+                ' IllegalFunctionRequest is built from the received function code; reset() of a block does not move the window validate() tests.'
+                ' zero_mode defaults to the current Defaults.ZeroMode (read at construction, never bound in a signature).',
         'note': 'Attribute<->wire binding of guarded fields is decided by C01/C02; block range arithmetic by C18. Three genuine '
                 'defects (FC5 value word, FC15 quantity) are listed in known_findings.jsonl.',
         'technique': 'guard/dominance analysis over enumerated paths, interval + affine normal forms (static)',
@@ -42,7 +45,8 @@ CLAIMS = {
                 ' The asyncio handler is constructed with, and bound to, the server that accepted the connection; the server keeps the context object it was given.'
                 ' The threaded front-end asks the socket for at least one whole ADU per read; the RTU length oracle sizes maximum-size requests.'
                 ' No framer decision is taken on the chunk just received (shared with C06 R5).'
-                ' The exception response to an unserviceable request carries the received function code; a one-frame-per-call framer keeps nothing behind a skipped frame.',
+                ' The exception response to an unserviceable request carries the received function code; a one-frame-per-call framer keeps nothing behind a skipped frame.'
+                ' The missing-slave / broadcast options default to the current Defaults values (read at construction).',
         'note': 'request.execute may raise any Exception, context lookup NoSuchSlaveException; other statements non-raising. '
                 'Byte-exact output streams over request histories are not decided.',
         'technique': 'per-path effect counting over interprocedural path enumeration + who-may-call + signature conformance (static)',
@@ -53,7 +57,8 @@ CLAIMS = {
                 'context.slaves()/context.single and admits unit 0 under broadcast and only then, the server-context routing/id interval, that contexts do not share default blocks, and that no truthiness test can replace the context handed to a server by a default one.'
                 ' The asyncio handler is bound per instance to the server that created it; contexts and blocks own their tables per instance.'
                 " slaves() lists every hosted unit on every return path; doException() keeps the request's unit and transaction ids."
-                " header['uid'] is parsed from the same version of the receive buffer as the bytes handed to the decoder.",
+                " header['uid'] is parsed from the same version of the receive buffer as the bytes handed to the decoder."
+                ' No store or forwarding context keeps a mutable default argument; the missing-slave / broadcast options are read at construction.',
         'note': 'Non-interference between unit datastores at run time follows from these routing facts plus C05 R2; it is not itself decided.',
         'technique': 'decision-table enumeration + path routing analysis + sibling agreement (static)',
     },
@@ -65,7 +70,8 @@ CLAIMS = {
                 'containment assumption against the installed Twisted sources.'
                 ' Cursor loops of the request decoders advance on every path back to the loop test (no request can spin a server thread / event loop); decoder and framer state is per instance; asyncio handlers are bound to their server.'
                 ' The threaded front-end reads at least a whole ADU per call; hexlify_packets and the __str__ of the library exceptions are total (no TypeError is raised inside an except branch of a serving loop).'
-                ' A one-frame-per-call framer keeps nothing behind a frame it skips (no request is executed a read late).',
+                ' A one-frame-per-call framer keeps nothing behind a frame it skips (no request is executed a read late).'
+                ' The block validate() predicates are part of the write guard (C05 R7 imported).',
         'note': 'Statements other than the framer call / transport read are treated as non-raising; Twisted containment is an assumption in the quick tier.',
         'technique': 'exception-flow analysis over enumerated paths + call-graph who-may-call (static)',
     },
@@ -76,7 +82,8 @@ CLAIMS = {
                 ' The asyncio handler reads its server from an instance attribute bound by every constructor path to the server that created it.'
                 " The threaded front-end's read size covers an ADU like the other front-ends; a response class declared should_respond = False stays unsendable on every constructor path."
                 ' No front-end stores anything derived from received traffic in its own attributes outside connection set-up.'
-                ' After a framer exception every connection-oriented front-end ends the connection as the reference does.',
+                ' After a framer exception every connection-oriented front-end ends the connection as the reference does.'
+                ' No front-end freezes the missing-slave / broadcast policy at import time while its siblings read it at construction.',
         'note': 'Decides agreement of the code summaries, not byte-identical outputs over histories or interleavings.',
         'technique': 'cross-checking sibling implementations via path summaries (static)',
     },
@@ -88,7 +95,8 @@ CLAIMS = {
                 ' A header field that holds a slice of the receive buffer is taken in the call that reads it; framers own their header per instance.'
                 ' hexlify_packets (evaluated on every reset / processing path) is total on byte strings; the RTU length oracle is a function of the frame bytes only.'
                 ' After a frame for a foreign unit was skipped the frame loop goes on to the frames behind it.'
-                ' A framer that handles one frame per call leaves nothing buffered behind a frame it skips.',
+                ' A framer that handles one frame per call leaves nothing buffered behind a frame it skips.'
+                ' The readiness test of the delimiter framers is monotone under appending (shared with C11).',
         'note': 'Only explicit length / delimiter tests classify as data absence. Equality of delivered sequences over all chunkings is not decided.',
         'technique': 'interprocedural path enumeration with effect classification (buffer shrink / delivery / raise) (static)',
     },
@@ -109,7 +117,8 @@ CLAIMS = {
                 ' The serial client drains stale input before every request on every framing (shared with C13).'
                 ' Every class lookupPduClass can return has a frame size the RTU oracle can compute (no exception other than the caught IndexError leaves it); hexlify_packets is total, so resetFrame() always clears the buffer.'
                 ' The readiness test that gates the garbage skip of the delimiter framers is monotone under appending bytes.'
-                ' resetFrame() of every framer leaves the receive buffer empty on every path.',
+                ' resetFrame() of every framer leaves the receive buffer empty on every path.'
+                ' resetFrame() re-initialises every attribute the receive-side methods of the framer assign.',
         'note': 'Necessary conditions only; RTU in-stream resynchronisation is not decided.',
         'technique': 'path enumeration + effect-after-event rules (static)',
     },
@@ -120,7 +129,8 @@ CLAIMS = {
                 'that no reachable fallback fetches under a foreign key, that a fresh id is allocated and stale framer bytes are cleared before transmitting; a TCP read of unknown size ends only on its deadline; a first read that is not exactly min_size long raises (so the connection is closed); the bytes sent are buildPacket(request) of the same call; the TCP read returns only bytes received in that call. Two genuine defects are listed as known findings.'
                 ' ClientDecoder.decode contains whatever the reply codecs raise; client decoder tables and manager bookkeeping are per instance.'
                 ' An exchange that ended in a transport fault leaves no open connection behind (shared with C13); decode() of the response classes reads the spec layout (shared with C01; two known findings mirrored).'
-                " header[len] of the delimiter framers is the position of the reply's own (first) end delimiter (shared with C03).",
+                " header[len] of the delimiter framers is the position of the reply's own (first) end delimiter (shared with C03)."
+                ' No response / exception class can be falsy while the manager tests the picked-up reply for truth (shared with C01 R14).',
         'note': 'Structural necessary conditions; reply contents and connection histories are not explored.',
         'technique': 'key-provenance / must-compare rule over region-scoped path enumeration (static)',
     },
@@ -132,7 +142,8 @@ CLAIMS = {
                 ' ClientDecoder.decode contains every codec exception; cursor loops of the response decoders advance on every path; manager bookkeeping is per instance.'
                 ' A read of unknown length asks for at least one whole ADU; hexlify_packets and exception texts are total; what an earlier exchange left in the framer is dropped before the next request (shared with C08).'
                 ' client.connect() precedes the transmission inside every attempt (the fault handler of the previous attempt closed the transport).'
-                ' A cached header is reset whenever bytes are dropped from the front of the buffer (shared with C06 R6).',
+                ' A cached header is reset whenever bytes are dropped from the front of the buffer (shared with C06 R6).'
+                ' The retry policy and time budget default to the current Defaults values (read at construction).',
         'note': 'Wall-clock bounds of blocking transport calls and the correctness of a following transaction are not decided. '
                 'Six genuine defects are listed as known findings.',
         'technique': 'loop-variant extraction + decision-table enumeration + interprocedural exception-flow summaries (static)',
@@ -165,7 +176,8 @@ CLAIMS = {
                 '(split into network-order words, reverse iff wordorder Little, re-pack per word with the byte order) which makes them '
                 'an involution pair; register transport formats, build() padding, to_string() = join of the current payload on every path, reset() emptying it, and the string format length taken from the bytes that are packed.'
                 ' The builder owns its payload list; build() is verified by folding its loop range and slice bounds for payload lengths 0..40.'
-                ' The bit helpers behind add_bits / decode_bits return freshly built lists and are not memoised.',
+                ' The bit helpers behind add_bits / decode_bits return freshly built lists and are not memoised.'
+                ' The numeric add_* methods pack the value they are given, unchanged.',
         'note': 'struct is trusted for value-level round trips; these rules decide the layout agreement for all values at once.',
         'technique': 'writer/reader pair table + sibling transformation comparison via value propagation (static)',
     },
@@ -177,7 +189,8 @@ CLAIMS = {
                 'with the same table; dispatch dataflow of both _helper functions, including that a sub-function / MEI-type class looked up in a table is tested against None and not for truthiness (sub-function 0 is valid). Message constructors must not store a mutable default argument and must keep a 0 argument of an integer field; decoder.register() must not replace an existing sub-function table; the bit-list helpers are undecorated and return freshly built lists. Five genuine defects are known findings.'
                 ' Decoder tables are owned by the decoder instance (register() on one decoder cannot change another).'
                 ' No decoder path refuses a PDU for its length alone: length guards ahead of the function-table lookup are evaluated for every legal length 1..253.'
-                ' No registered message class (nor a package base) defines __len__ / __bool__ while the decoders test the fresh instance for truth; IllegalFunctionRequest is always built from the received function code.',
+                ' No registered message class (nor a package base) defines __len__ / __bool__ while the decoders test the fresh instance for truth; IllegalFunctionRequest is always built from the received function code.'
+                ' register() writes the (function, sub-function) entry on every path; the bit helpers do not modify their argument on any path.',
         'note': 'pack_bitstring/unpack_bitstring arithmetic and struct are trusted; value ranges are not decided. The MEI object list is decided by C20.',
         'technique': 'abstract interpretation to wire-layout summaries compared with frozen spec tables; constant folding of decoder tables (static)',
     },
@@ -198,7 +211,8 @@ CLAIMS = {
                 'format/binding = build format/binding, populateResult copies the ids, every MBAP length 2..254 is accepted, with default options no framer reads a header key it never defines, receive-side struct codes are the send-side codes, a one-byte TLS PDU is a complete frame); the RTU length oracle (_rtu_frame_size, '
                 '_rtu_byte_count_pos, custom size functions) is compared with the spec layout of every class reachable through '
                 'lookupPduClass; transforms applied on send need an inverse on receive; checksum comparison shape and CRC constants.'
-                ' The sub-function dispatch that gives a delivered message its type reaches every registered code (shared with C01).',
+                ' The sub-function dispatch that gives a delivered message its type reaches every registered code (shared with C01).'
+                ' register() adds every sub-function class to the dispatch table (shared with C01 R7).',
         'note': 'Numerical correctness of computeCRC/computeLRC (hence the on-wire CRC byte order) and payload-content sweeps are not decided. Three known findings.',
         'technique': 'wire-layout summaries + affine length arithmetic + declaration-vs-layout cross-check (static)',
     },
@@ -209,7 +223,8 @@ CLAIMS = {
                 'exception length, min_size and function-code peek tables are compared with the buildPacket layout summaries; the no-response bookkeeping that selects the read-everything mode lists a unit exactly on an empty reply and releases it on any non-empty one.'
                 ' The list of silent units belongs to one transaction manager.'
                 ' The size _recv computed is the size passed to the transport read on every path of the synchronous clients.'
-                ' On the exception-reply path the second read asks for _calculate_exception_length() - min_size bytes.',
+                ' On the exception-reply path the second read asks for _calculate_exception_length() - min_size bytes.'
+                ' _transact reads the reply with the predicted length unchanged (a local echo is a read of its own).',
         'note': 'Assumes getValues(fc, a, n) returns n values; binary overhead exact only without delimiter escaping. Two known findings (Modbus Plus predictions).',
         'technique': 'affine comparison of prediction functions with layout-summary lengths (static)',
     },
